@@ -26,69 +26,6 @@ import (
 
 const prodMessageOffset = 4648398125000000000
 
-type outMsg struct {
-	Id, Reply uint64
-	Data      string
-	Rcpt      []uint64
-}
-
-func renderOut(ms []outputstream.Message) []outMsg {
-	out := make([]outMsg, len(ms))
-	for k, m := range ms {
-		var r []uint64
-		for id, ok := range m.InterestingFor {
-			if ok {
-				r = append(r, id)
-			}
-		}
-		sort.Slice(r, func(a, b int) bool { return r[a] < r[b] })
-		out[k] = outMsg{m.Id.Id, m.Id.Reply, m.Data, r}
-	}
-	return out
-}
-
-var created003 = regexp.MustCompile(` 003 (\S+) :This server was created .*$`)
-
-func mask003(s string) string {
-	return created003.ReplaceAllString(s, " 003 $1 :This server was created <masked>")
-}
-
-func outString(ms []outMsg) string {
-	var b strings.Builder
-	for _, m := range ms {
-		fmt.Fprintf(&b, "%d.%d %q -> %v\n", m.Id, m.Reply, mask003(m.Data), m.Rcpt)
-	}
-	return b.String()
-}
-
-// diffClass gives a stable, short label for the first differing dump line (the
-// field path without map keys), used as the violation signature.
-var keyRe = regexp.MustCompile(`\[[^\]]*\]`)
-
-func diffSig(a, b string) string {
-	la, lb := strings.Split(a, "\n"), strings.Split(b, "\n")
-	for k := 0; k < len(la) || k < len(lb); k++ {
-		var x, y string
-		if k < len(la) {
-			x = la[k]
-		}
-		if k < len(lb) {
-			y = lb[k]
-		}
-		if x != y {
-			l := x
-			if l == "" {
-				l = y
-			}
-			if eq := strings.Index(l, "="); eq > 0 {
-				l = l[:eq]
-			}
-			return keyRe.ReplaceAllString(l, "[]")
-		}
-	}
-	return "equal"
-}
-
 // dumpDiffSigs returns the distinct field paths (map keys stripped) on which two dumps differ, in order.
 func dumpDiffSigs(a, b string) []string {
 	count := map[string]int{}
@@ -427,13 +364,6 @@ func cmdOf(e *logEntry) string {
 		return strings.ToUpper(trunc(w, 12))
 	}
 	return "?"
-}
-
-func descr(e *logEntry) string {
-	if e.Msg == nil {
-		return "raft-internal"
-	}
-	return fmt.Sprintf("%s session=%d %q", e.Msg.Type, e.Msg.Session.Id, trunc(e.Msg.Data, 160))
 }
 
 // compareStates checks replica agreement of full state at equal applied index (C01/C02/C03).
